@@ -2,6 +2,7 @@ import Ark.Model.Pairing
 import Ark.Proofs.ExtB
 import Mathlib.Tactic.Ring
 import Mathlib.Tactic.LinearCombination
+import Mathlib.Tactic.Linarith
 import Mathlib.Algebra.BigOperators.Group.List.Basic
 import Mathlib.Algebra.GroupWithZero.Basic
 import Mathlib.Algebra.Group.Submonoid.Basic
@@ -1046,4 +1047,623 @@ theorem Mnt.multi_prod :
 
 end mnt
 
+/-! ## final exponentiations -/
+
+section cyc
+variable {P T : Type} [Field T] [DecidableEq T] {DT : FieldD P T} {C : CycD T}
+  {L : TargetLawful DT C}
+
+theorem CycLawful.mul_mem (CL : CycLawful L) {a b : T} (ha : a ∈ CL.Cyc) (hb : b ∈ CL.Cyc) :
+    a * b ∈ CL.Cyc := CL.Cyc.mul_mem ha hb
+
+theorem CycLawful.pow_mem (CL : CycLawful L) {a : T} (ha : a ∈ CL.Cyc) (n : ℕ) :
+    a ^ n ∈ CL.Cyc := CL.Cyc.pow_mem ha n
+
+theorem CycLawful.zpow_mem (CL : CycLawful L) {a : T} (ha : a ∈ CL.Cyc) (z : ℤ) :
+    a ^ z ∈ CL.Cyc := by
+  cases z with
+  | ofNat n => simpa using CL.pow_mem ha n
+  | negSucc n =>
+    rw [zpow_negSucc]
+    exact CL.inv_mem _ (CL.pow_mem ha _)
+
+/-- membership in the cyclotomic subgroup by closure -/
+theorem WF_asU64 (i : Int) : WF [Bw6.asU64 i] := by
+  intro l hl
+  simp only [List.mem_singleton] at hl
+  subst hl
+  unfold Bw6.asU64 B
+  have h1 : (0 : Int) ≤ i % (2 ^ 64 : Int) := Int.emod_nonneg _ (by norm_num)
+  have h2 : i % (2 ^ 64 : Int) < 2 ^ 64 := Int.emod_lt_of_pos _ (by norm_num)
+  omega
+
+macro "cyc_mem" : tactic =>
+  `(tactic| repeat' (first
+    | exact WF_asU64 _
+    | assumption
+    | apply CycLawful.mul_mem
+    | apply CycLawful.zpow_mem
+    | apply CycLawful.pow_mem
+    | apply CycLawful.inv_mem
+    | apply CycLawful.frob_mem))
+
+/-- the signed value of a curve parameter -/
+def sval (neg : Bool) (e : List Nat) : ℤ := if neg then -(value e : ℤ) else (value e : ℤ)
+
+/-- `cyclotomic_exp` followed by the conditional `cyclotomic_inverse` -/
+theorem CycLawful.signedExp (CL : CycLawful L) {a : T} (ha : a ∈ CL.Cyc) (e : List Nat) (he : WF e)
+    (neg : Bool) :
+    (obind (cycExp C a e) fun r => if neg then cycInvInPlace C r else .ok r) =
+      .ok (a ^ sval neg e) := by
+  rw [CL.cycExp_eq a ha e he]
+  cases neg
+  · simp [sval]
+  · simp only [obind_ok, if_true, L.cycInvInPlace_eq, sval]
+    rw [CL.conj_eq _ (CL.pow_mem ha _), zpow_neg, zpow_natCast]
+
+end cyc
+
+section bls12
+variable {P F G T : Type} [Add G] [Sub G] [Mul G] [Neg G] [Field T] [DecidableEq T]
+
+/-- the easy part `f ↦ f^((p⁶-1)(p²+1))` of BLS12 and BN -/
+def easy12 {DT : FieldD P T} {C : CycD T} (L : TargetLawful DT C) (f : T) : T :=
+  L.frob 2 (L.conj f * f⁻¹) * (L.conj f * f⁻¹)
+
+/-- the hard part of `Bls12::final_exponentiation` on the cyclotomic subgroup -/
+def Bls12.hardVal (φ : ℕ → T →*₀ T) (x : ℤ) (r : T) : T :=
+  let y0 := r * r
+  let y1 := r ^ x
+  let y2 := r⁻¹
+  let y1 := y1 * y2
+  let y2 := y1 ^ x
+  let y1 := y1⁻¹
+  let y1 := y1 * y2
+  let y2 := y1 ^ x
+  let y1 := φ 1 y1
+  let y1 := y1 * y2
+  let r := r * y0
+  let y0 := y1 ^ x
+  let y2 := y0 ^ x
+  let y0 := φ 2 y1
+  let y1 := y1⁻¹
+  let y1 := y1 * y2
+  let y1 := y1 * y0
+  r * y1
+
+variable (E : Bls12 P F G T) (L : TargetLawful E.DT E.C) (CL : CycLawful L)
+
+theorem Bls12.expByX_eq (hx : WF E.x) {a : T} (ha : a ∈ CL.Cyc) :
+    Bls12.expByX E a = .ok (a ^ sval E.xIsNegative E.x) :=
+  CL.signedExp ha E.x hx E.xIsNegative
+
+theorem Bls12.fe_eq (hx : WF E.x) (hEasy : ∀ f, f ≠ 0 → easy12 L f ∈ CL.Cyc) (f : T) :
+    Bls12.finalExponentiation E f =
+      .ok (if f = 0 then none else some (Bls12.hardVal L.frob (sval E.xIsNegative E.x) (easy12 L f))) := by
+  unfold Bls12.finalExponentiation
+  by_cases hf : f = 0
+  · subst hf
+    simp [L.cycInvInPlace_eq, L.inverse_eq]
+  · have hr := hEasy f hf
+    simp only [L.cycInvInPlace_eq, L.inverse_eq, hf, if_false, obind_ok, L.frob_eq]
+    unfold easy12 at hr ⊢
+    generalize L.frob 2 (L.conj f * f⁻¹) * (L.conj f * f⁻¹) = r at hr ⊢
+    simp (disch := cyc_mem) only [CL.cycSquare_eq, Bls12.expByX_eq E L CL hx, obind_ok, CL.conj_eq]
+    rfl
+
+theorem easy12_mul {DT : FieldD P T} {C : CycD T} (L : TargetLawful DT C) (f g : T) :
+    easy12 L (f * g) = easy12 L f * easy12 L g := by
+  simp only [easy12, map_mul, mul_inv]; ring
+
+theorem Bls12.hardVal_mul (φ : ℕ → T →*₀ T) (x : ℤ) (r s : T) :
+    Bls12.hardVal φ x (r * s) = Bls12.hardVal φ x r * Bls12.hardVal φ x s := by
+  simp only [Bls12.hardVal, map_mul, mul_inv, mul_zpow]; ring
+
+end bls12
+
+section femul
+variable {T : Type} [Field T] [DecidableEq T]
+
+/-- the product lifted through `Outcome (Option ·)`: a panic is a panic, `None` absorbs -/
+def omul : Outcome (Option T) → Outcome (Option T) → Outcome (Option T)
+  | .panic, _ => .panic
+  | .ok _, .panic => .panic
+  | .ok (some a), .ok (some b) => .ok (some (a * b))
+  | .ok none, .ok _ => .ok none
+  | .ok (some _), .ok none => .ok none
+
+theorem fe_mul_of_eq (Φ : T → T) (hΦ : ∀ a b, Φ (a * b) = Φ a * Φ b) (fe : T → Outcome (Option T))
+    (h : ∀ f, fe f = .ok (if f = 0 then none else some (Φ f))) (f g : T) :
+    fe (f * g) = omul (fe f) (fe g) := by
+  rw [h, h, h]
+  by_cases hf : f = 0
+  · subst hf; by_cases hg : g = 0 <;> simp [omul, hg]
+  · by_cases hg : g = 0
+    · subst hg; simp [omul, hf]
+    · simp [omul, hf, hg, hΦ]
+
+theorem fe_mul_of_eq' (Φ : T → T) (hΦ : ∀ a b, Φ (a * b) = Φ a * Φ b) (fe : T → Outcome (Option T))
+    (h : ∀ f, fe f = if f = 0 then .panic else .ok (some (Φ f))) (f g : T) :
+    fe (f * g) = omul (fe f) (fe g) := by
+  rw [h, h, h]
+  by_cases hf : f = 0
+  · subst hf; simp [omul]
+  · by_cases hg : g = 0
+    · subst hg; simp [omul, hf]
+    · simp [omul, hf, hg, hΦ]
+
+end femul
+
+section bn
+variable {P F G T : Type} [Add G] [Sub G] [Mul G] [Neg G] [Field T] [DecidableEq T]
+
+/-- the hard part of `Bn::final_exponentiation` on the cyclotomic subgroup (`nx` is `-x`) -/
+def Bn.hardVal (φ : ℕ → T →*₀ T) (nx : ℤ) (r : T) : T :=
+  let y0 := r ^ nx
+  let y1 := y0 * y0
+  let y2 := y1 * y1
+  let y3 := y2 * y1
+  let y4 := y3 ^ nx
+  let y5 := y4 * y4
+  let y6 := y5 ^ nx
+  let y3 := y3⁻¹
+  let y6 := y6⁻¹
+  let y7 := y6 * y4
+  let y8 := y7 * y3
+  let y9 := y8 * y1
+  let y10 := y8 * y4
+  let y11 := y10 * r
+  let y12 := φ 1 y9
+  let y13 := y12 * y11
+  let y8 := φ 2 y8
+  let y14 := y8 * y13
+  let r := r⁻¹
+  let y15 := r * y9
+  let y15 := φ 3 y15
+  y15 * y14
+
+variable (E : Bn P F G T) (L : TargetLawful E.DT E.C) (CL : CycLawful L)
+
+theorem Bn.expByNegX_eq (hx : WF E.x) {a : T} (ha : a ∈ CL.Cyc) :
+    Bn.expByNegX E a = .ok (a ^ sval (!E.xIsNegative) E.x) :=
+  CL.signedExp ha E.x hx (!E.xIsNegative)
+
+theorem Bn.fe_eq (hx : WF E.x) (hEasy : ∀ f, f ≠ 0 → easy12 L f ∈ CL.Cyc) (f : T) :
+    Bn.finalExponentiation E f =
+      .ok (if f = 0 then none else some (Bn.hardVal L.frob (sval (!E.xIsNegative) E.x) (easy12 L f))) := by
+  unfold Bn.finalExponentiation
+  by_cases hf : f = 0
+  · subst hf
+    simp [L.cycInvInPlace_eq, L.inverse_eq]
+  · have hr := hEasy f hf
+    simp only [L.cycInvInPlace_eq, L.inverse_eq, hf, if_false, obind_ok, L.frob_eq]
+    unfold easy12 at hr ⊢
+    generalize L.frob 2 (L.conj f * f⁻¹) * (L.conj f * f⁻¹) = r at hr ⊢
+    simp (disch := cyc_mem) only [CL.cycSquare_eq, Bn.expByNegX_eq E L CL hx, obind_ok, CL.conj_eq]
+    rfl
+
+theorem Bn.hardVal_mul (φ : ℕ → T →*₀ T) (x : ℤ) (r s : T) :
+    Bn.hardVal φ x (r * s) = Bn.hardVal φ x r * Bn.hardVal φ x s := by
+  simp only [Bn.hardVal, map_mul, mul_inv, mul_zpow]; ring
+
+end bn
+
+section bw6
+variable {P F T : Type} [Add F] [Sub F] [Mul F] [Neg F] [Field T] [DecidableEq T]
+
+/-- the easy part `f ↦ f^((p³-1)(p+1))` of BW6 -/
+def easy6 {DT : FieldD P T} {C : CycD T} (L : TargetLawful DT C) (f : T) : T :=
+  L.frob 1 (L.conj f * f⁻¹) * (L.conj f * f⁻¹)
+
+theorem easy6_mul {DT : FieldD P T} {C : CycD T} (L : TargetLawful DT C) (f g : T) :
+    easy6 L (f * g) = easy6 L f * easy6 L g := by
+  simp only [easy6, map_mul, mul_inv]; ring
+
+variable (E : Bw6 P F T) (L : TargetLawful E.DT E.C) (CL : CycLawful L)
+
+theorem Bw6.easy_eq (hconj : ∀ f, E.conj f = L.conj f) (f : T) :
+    Bw6.finalExponentiationEasyPart E f = if f = 0 then .panic else .ok (easy6 L f) := by
+  unfold Bw6.finalExponentiationEasyPart
+  rw [L.invUnwrap_inverse]
+  by_cases hf : f = 0
+  · simp [hf]
+  · simp [hf, hconj, L.frob_eq, easy6]
+
+theorem Bw6.cinv_eq {a : T} (ha : a ∈ CL.Cyc) : invUnwrap E.C.cycInverse a = .ok a⁻¹ := by
+  rw [L.invUnwrap_cycInverse, if_neg (CL.ne_zero a ha), CL.conj_eq a ha]
+
+theorem Bw6.cyclotomicExpSigned_eq (e : List Nat) (he : WF e) (inv : Bool) {a : T} (ha : a ∈ CL.Cyc) :
+    Bw6.cyclotomicExpSigned E a e inv = .ok (a ^ sval inv e) :=
+  CL.signedExp ha e he inv
+
+theorem Bw6.expByX_eq (hx : WF E.x) {a : T} (ha : a ∈ CL.Cyc) :
+    Bw6.expByX E a = .ok (a ^ sval E.xIsNegative E.x) :=
+  CL.signedExp ha E.x hx E.xIsNegative
+
+theorem Bw6.expByXPlus1_eq (hx : WF E.x) {a : T} (ha : a ∈ CL.Cyc) :
+    Bw6.expByXPlus1 E a = .ok (a ^ sval E.xIsNegative E.x * a) := by
+  unfold Bw6.expByXPlus1
+  rw [Bw6.expByX_eq E L CL hx ha]; rfl
+
+theorem Bw6.expByXMinus1_eq (hx : WF E.x) {a : T} (ha : a ∈ CL.Cyc) :
+    Bw6.expByXMinus1 E a = .ok (a ^ sval E.xIsNegative E.x * a⁻¹) := by
+  unfold Bw6.expByXMinus1
+  rw [Bw6.expByX_eq E L CL hx ha, Bw6.cinv_eq E L CL ha]; rfl
+
+theorem Bw6.expByXMinus1Div3_eq (hx3 : WF E.xMinus1Div3) {a : T} (ha : a ∈ CL.Cyc) :
+    Bw6.expByXMinus1Div3 E a = .ok (a ^ sval E.xIsNegative E.xMinus1Div3) :=
+  CL.signedExp ha _ hx3 E.xIsNegative
+
+/-- sequencing of the closed forms (keeps the intermediate values shared) -/
+def bindv (v : T) (k : T → T) : T := k v
+
+theorem lock {S : Submonoid T} {o : Outcome T} {v : T} {K : T → Outcome T} {k : T → T}
+    (ho : o = .ok v) (hv : v ∈ S) (h : ∀ w, w ∈ S → K w = .ok (k w)) :
+    obind o K = .ok (bindv v k) := by
+  rw [ho]; exact h v hv
+
+theorem lockMul {v1 v2 v3 : T} {k1 k2 k3 : T → T} (hv : v3 = v1 * v2)
+    (h : ∀ w1 w2, k3 (w1 * w2) = k1 w1 * k2 w2) :
+    bindv v3 k3 = bindv v1 k1 * bindv v2 k2 := by
+  rw [hv]; exact h v1 v2
+
+/-- the exponents `d2`, `d1` of the generic hard part -/
+def Bw6.d2 (E : Bw6 P F T) : ℕ := Bw6.asU64 (Int.tdiv (E.hT * E.hT + 3 * E.hY * E.hY) 4)
+def Bw6.d1T (E : Bw6 P F T) : ℤ := Int.tdiv (E.hT - E.hY) 2
+def Bw6.d1F (E : Bw6 P F T) : ℤ := Int.tdiv (E.hT + E.hY) 2
+
+def Bw6.copyT (E : Bw6 P F T) (f : T) : Outcome T :=
+  obind (Bw6.expByXMinus1 E f) fun a =>
+  obind (Bw6.expByXMinus1 E a) fun a =>
+  obind (invUnwrap E.C.cycInverse (f * a)) fun t =>
+  obind (E.DT.frob f 1) fun fp =>
+  obind (.ok (t * fp)) fun a =>
+  obind (Bw6.expByXPlus1 E a) fun t =>
+  obind (.ok (t * f)) fun b =>
+  obind (.ok (E.DT.square a * a)) fun a =>
+  obind (invUnwrap E.C.cycInverse a) fun a =>
+  obind (Bw6.expByXMinus1Div3 E b) fun c =>
+  obind (Bw6.expByXMinus1 E c) fun d =>
+  obind (Bw6.expByXMinus1 E d) fun t =>
+  obind (Bw6.expByXMinus1 E t) fun t =>
+  obind (.ok (t * d)) fun e =>
+  obind (Bw6.expByXPlus1 E e) fun t =>
+  obind (invUnwrap E.C.cycInverse (t * c)) fun t =>
+  obind (.ok (t * d)) fun ff =>
+  obind (Bw6.expByXPlus1 E (ff * d)) fun t =>
+  obind (invUnwrap E.C.cycInverse t) fun t =>
+  obind (.ok (t * c * b)) fun g =>
+  obind (Bw6.cyclotomicExpSigned E ff [Bw6.asU64 (Bw6.d1T E)] (decide (Bw6.d1T E < 0))) fun t =>
+  obind (.ok (t * e)) fun h =>
+  obind (cycExp E.C g [Bw6.d2 E]) fun gd2 =>
+  obind (.ok (E.DT.square h * h * b * gd2)) fun h =>
+  .ok (a * h)
+
+def Bw6.copyF (E : Bw6 P F T) (f : T) : Outcome T :=
+  obind (Bw6.expByXMinus1 E f) fun a =>
+  obind (Bw6.expByXMinus1 E a) fun a =>
+  obind (E.DT.frob f 1) fun fp =>
+  obind (.ok (a * fp)) fun a =>
+  obind (Bw6.expByXPlus1 E a) fun t =>
+  obind (invUnwrap E.C.cycInverse f) fun fi =>
+  obind (.ok (t * fi)) fun b =>
+  obind (.ok (E.DT.square a * a)) fun a =>
+  obind (Bw6.expByXMinus1Div3 E b) fun c =>
+  obind (Bw6.expByXMinus1 E c) fun d =>
+  obind (Bw6.expByXMinus1 E d) fun t =>
+  obind (Bw6.expByXMinus1 E t) fun t =>
+  obind (.ok (t * d)) fun e =>
+  obind (invUnwrap E.C.cycInverse d) fun d =>
+  obind (.ok (d * b)) fun fc =>
+  obind (Bw6.expByXPlus1 E e) fun t =>
+  obind (.ok (t * fc)) fun g =>
+  obind (.ok (g * c)) fun h =>
+  obind (Bw6.expByXPlus1 E (g * d)) fun t =>
+  obind (invUnwrap E.C.cycInverse fc) fun fci =>
+  obind (.ok (t * fci)) fun i =>
+  obind (Bw6.cyclotomicExpSigned E h [Bw6.asU64 (Bw6.d1F E)] (decide (Bw6.d1F E < 0))) fun t =>
+  obind (.ok (t * e)) fun j =>
+  obind (cycExp E.C i [Bw6.d2 E]) fun id2 =>
+  obind (.ok (E.DT.square j * j * b * id2)) fun k =>
+  .ok (a * k)
+
+def Bw6.hardGenValT (φ : ℕ → T →*₀ T) (x x3 d1 : ℤ) (d2 : ℕ) (f : T) : T :=
+  bindv (f ^ x * f⁻¹) fun a =>
+  bindv (a ^ x * a⁻¹) fun a =>
+  bindv (((f * a))⁻¹) fun t =>
+  bindv (φ 1 f) fun fp =>
+  bindv (t * fp) fun a =>
+  bindv (a ^ x * a) fun t =>
+  bindv (t * f) fun b =>
+  bindv ((a * a) * a) fun a =>
+  bindv (a⁻¹) fun a =>
+  bindv (b ^ x3) fun c =>
+  bindv (c ^ x * c⁻¹) fun d =>
+  bindv (d ^ x * d⁻¹) fun t =>
+  bindv (t ^ x * t⁻¹) fun t =>
+  bindv (t * d) fun e =>
+  bindv (e ^ x * e) fun t =>
+  bindv (((t * c))⁻¹) fun t =>
+  bindv (t * d) fun ff =>
+  bindv (((ff * d)) ^ x * ((ff * d))) fun t =>
+  bindv (t⁻¹) fun t =>
+  bindv (t * c * b) fun g =>
+  bindv (ff ^ d1) fun t =>
+  bindv (t * e) fun h =>
+  bindv (g ^ d2) fun gd2 =>
+  bindv ((h * h) * h * b * gd2) fun h =>
+  a * h
+
+def Bw6.hardGenValF (φ : ℕ → T →*₀ T) (x x3 d1 : ℤ) (d2 : ℕ) (f : T) : T :=
+  bindv (f ^ x * f⁻¹) fun a =>
+  bindv (a ^ x * a⁻¹) fun a =>
+  bindv (φ 1 f) fun fp =>
+  bindv (a * fp) fun a =>
+  bindv (a ^ x * a) fun t =>
+  bindv (f⁻¹) fun fi =>
+  bindv (t * fi) fun b =>
+  bindv ((a * a) * a) fun a =>
+  bindv (b ^ x3) fun c =>
+  bindv (c ^ x * c⁻¹) fun d =>
+  bindv (d ^ x * d⁻¹) fun t =>
+  bindv (t ^ x * t⁻¹) fun t =>
+  bindv (t * d) fun e =>
+  bindv (d⁻¹) fun d =>
+  bindv (d * b) fun fc =>
+  bindv (e ^ x * e) fun t =>
+  bindv (t * fc) fun g =>
+  bindv (g * c) fun h =>
+  bindv (((g * d)) ^ x * ((g * d))) fun t =>
+  bindv (fc⁻¹) fun fci =>
+  bindv (t * fci) fun i =>
+  bindv (h ^ d1) fun t =>
+  bindv (t * e) fun j =>
+  bindv (i ^ d2) fun id2 =>
+  bindv ((j * j) * j * b * id2) fun k =>
+  a * k
+
+def Bw6.copy761 (E : Bw6 P F T) (f : T) : Outcome T :=
+  obind (.ok (f)) fun f0 =>
+  obind (E.DT.frob f0 1) fun f0p =>
+  obind (Bw6.expByX E f0) fun f1 =>
+  obind (E.DT.frob f1 1) fun f1p =>
+  obind (Bw6.expByX E f1) fun f2 =>
+  obind (E.DT.frob f2 1) fun f2p =>
+  obind (Bw6.expByX E f2) fun f3 =>
+  obind (E.DT.frob f3 1) fun f3p =>
+  obind (Bw6.expByX E f3) fun f4 =>
+  obind (E.DT.frob f4 1) fun f4p =>
+  obind (Bw6.expByX E f4) fun f5 =>
+  obind (E.DT.frob f5 1) fun f5p =>
+  obind (Bw6.expByX E f5) fun f6 =>
+  obind (E.DT.frob f6 1) fun f6p =>
+  obind (Bw6.expByX E f6) fun f7 =>
+  obind (E.DT.frob f7 1) fun f7p =>
+  obind (Bw6.expByX E f7p) fun f8p =>
+  obind (Bw6.expByX E f8p) fun f9p =>
+  obind (cycInvInPlace E.C f5p) fun f5pP3 =>
+  obind (.ok (f3p * f6p * f5pP3)) fun result1 =>
+  obind (.ok (E.DT.square result1)) fun result2 =>
+  obind (.ok (f4 * f2p)) fun f4_2p =>
+  obind (cycInvInPlace E.C (f0 * f1 * f3 * f4_2p * f8p)) fun tmp1P3 =>
+  obind (.ok (result2 * f5 * f0p * tmp1P3)) fun result3 =>
+  obind (.ok (E.DT.square result3)) fun result4 =>
+  obind (cycInvInPlace E.C f7) fun f7P3 =>
+  obind (.ok (result4 * f9p * f7P3)) fun result5 =>
+  obind (.ok (E.DT.square result5)) fun result6 =>
+  obind (.ok (f2 * f4p)) fun f2_4p =>
+  obind (.ok (f4_2p * f5p)) fun f4_2p_5p =>
+  obind (cycInvInPlace E.C (f2_4p * f3 * f3p)) fun tmp2P3 =>
+  obind (.ok (result6 * f4_2p_5p * f6 * f7p * tmp2P3)) fun result7 =>
+  obind (.ok (E.DT.square result7)) fun result8 =>
+  obind (cycInvInPlace E.C (f0p * f9p)) fun tmp3P3 =>
+  obind (.ok (result8 * f0 * f7 * f1p * tmp3P3)) fun result9 =>
+  obind (.ok (E.DT.square result9)) fun result10 =>
+  obind (.ok (f6p * f8p)) fun f6p_8p =>
+  obind (.ok (f5 * f7p)) fun f5_7p =>
+  obind (cycInvInPlace E.C f6p_8p) fun tmp4P3 =>
+  obind (.ok (result10 * f5_7p * f2p * tmp4P3)) fun result11 =>
+  obind (.ok (E.DT.square result11)) fun result12 =>
+  obind (.ok (f3 * f6)) fun f3_6 =>
+  obind (.ok (f1 * f7)) fun f1_7 =>
+  obind (cycInvInPlace E.C (f1_7 * f2)) fun tmp5P3 =>
+  obind (.ok (result12 * f3_6 * f9p * tmp5P3)) fun result13 =>
+  obind (.ok (E.DT.square result13)) fun result14 =>
+  obind (cycInvInPlace E.C (f4_2p * f5_7p * f6p_8p)) fun tmp6P3 =>
+  obind (.ok (result14 * f0 * f0p * f3p * f5p * tmp6P3)) fun result15 =>
+  obind (.ok (E.DT.square result15)) fun result16 =>
+  obind (cycInvInPlace E.C f3_6) fun tmp7P3 =>
+  obind (.ok (result16 * f1p * tmp7P3)) fun result17 =>
+  obind (.ok (E.DT.square result17)) fun result18 =>
+  obind (cycInvInPlace E.C (f2_4p * f4_2p_5p * f9p)) fun tmp8P3 =>
+  obind (.ok (result18 * f1_7 * f5_7p * f0p * tmp8P3)) fun result19 =>
+  .ok result19
+
+def Bw6.hard761Val (φ : ℕ → T →*₀ T) (x : ℤ) (f : T) : T :=
+  bindv (f) fun f0 =>
+  bindv (φ 1 f0) fun f0p =>
+  bindv (f0 ^ x) fun f1 =>
+  bindv (φ 1 f1) fun f1p =>
+  bindv (f1 ^ x) fun f2 =>
+  bindv (φ 1 f2) fun f2p =>
+  bindv (f2 ^ x) fun f3 =>
+  bindv (φ 1 f3) fun f3p =>
+  bindv (f3 ^ x) fun f4 =>
+  bindv (φ 1 f4) fun f4p =>
+  bindv (f4 ^ x) fun f5 =>
+  bindv (φ 1 f5) fun f5p =>
+  bindv (f5 ^ x) fun f6 =>
+  bindv (φ 1 f6) fun f6p =>
+  bindv (f6 ^ x) fun f7 =>
+  bindv (φ 1 f7) fun f7p =>
+  bindv (f7p ^ x) fun f8p =>
+  bindv (f8p ^ x) fun f9p =>
+  bindv (f5p⁻¹) fun f5pP3 =>
+  bindv (f3p * f6p * f5pP3) fun result1 =>
+  bindv ((result1 * result1)) fun result2 =>
+  bindv (f4 * f2p) fun f4_2p =>
+  bindv (((f0 * f1 * f3 * f4_2p * f8p))⁻¹) fun tmp1P3 =>
+  bindv (result2 * f5 * f0p * tmp1P3) fun result3 =>
+  bindv ((result3 * result3)) fun result4 =>
+  bindv (f7⁻¹) fun f7P3 =>
+  bindv (result4 * f9p * f7P3) fun result5 =>
+  bindv ((result5 * result5)) fun result6 =>
+  bindv (f2 * f4p) fun f2_4p =>
+  bindv (f4_2p * f5p) fun f4_2p_5p =>
+  bindv (((f2_4p * f3 * f3p))⁻¹) fun tmp2P3 =>
+  bindv (result6 * f4_2p_5p * f6 * f7p * tmp2P3) fun result7 =>
+  bindv ((result7 * result7)) fun result8 =>
+  bindv (((f0p * f9p))⁻¹) fun tmp3P3 =>
+  bindv (result8 * f0 * f7 * f1p * tmp3P3) fun result9 =>
+  bindv ((result9 * result9)) fun result10 =>
+  bindv (f6p * f8p) fun f6p_8p =>
+  bindv (f5 * f7p) fun f5_7p =>
+  bindv (f6p_8p⁻¹) fun tmp4P3 =>
+  bindv (result10 * f5_7p * f2p * tmp4P3) fun result11 =>
+  bindv ((result11 * result11)) fun result12 =>
+  bindv (f3 * f6) fun f3_6 =>
+  bindv (f1 * f7) fun f1_7 =>
+  bindv (((f1_7 * f2))⁻¹) fun tmp5P3 =>
+  bindv (result12 * f3_6 * f9p * tmp5P3) fun result13 =>
+  bindv ((result13 * result13)) fun result14 =>
+  bindv (((f4_2p * f5_7p * f6p_8p))⁻¹) fun tmp6P3 =>
+  bindv (result14 * f0 * f0p * f3p * f5p * tmp6P3) fun result15 =>
+  bindv ((result15 * result15)) fun result16 =>
+  bindv (f3_6⁻¹) fun tmp7P3 =>
+  bindv (result16 * f1p * tmp7P3) fun result17 =>
+  bindv ((result17 * result17)) fun result18 =>
+  bindv (((f2_4p * f4_2p_5p * f9p))⁻¹) fun tmp8P3 =>
+  bindv (result18 * f1_7 * f5_7p * f0p * tmp8P3) fun result19 =>
+  result19
+
+theorem Bw6.hardGen_copy (f : T) :
+    Bw6.hardPartGeneric E f = if E.tModRIsZero then Bw6.copyT E f else Bw6.copyF E f := by
+  cases h : E.tModRIsZero
+  · simp only [Bw6.hardPartGeneric, h, Bool.false_eq_true, if_false]; rfl
+  · simp only [Bw6.hardPartGeneric, h, if_true]; rfl
+
+theorem obind_ok_nr {α β : Type} (a : α) (f : α → Outcome β) : obind (.ok a) f = f a :=
+  (id rfl : obind (.ok a) f = f a)
+
+theorem Bw6.hard761_copy (f : T) : Bw6.hardPart761 E f = Bw6.copy761 E f := by
+  simp only [Bw6.hardPart761, Bw6.copy761, obind_ok_nr]
+
+/-- one step of a hard part on the cyclotomic subgroup -/
+syntax "lock_step" term:max term:max term:max term:max term:max : tactic
+macro_rules
+| `(tactic| lock_step $E $L $CL $hx $hx3) =>
+  `(tactic| (
+    refine lock (S := CycLawful.Cyc $CL:term)
+      (by first
+        | exact Bw6.expByXMinus1_eq $E:term $L:term $CL:term $hx:term (by cyc_mem)
+        | exact Bw6.expByXPlus1_eq $E:term $L:term $CL:term $hx:term (by cyc_mem)
+        | exact Bw6.expByX_eq $E:term $L:term $CL:term $hx:term (by cyc_mem)
+        | exact Bw6.expByXMinus1Div3_eq $E:term $L:term $CL:term $hx3:term (by cyc_mem)
+        | exact Bw6.cinv_eq $E:term $L:term $CL:term (by cyc_mem)
+        | exact TargetLawful.frob_eq $L:term _ _
+        | exact Bw6.cyclotomicExpSigned_eq $E:term $L:term $CL:term _ (WF_asU64 _) _ (by cyc_mem)
+        | exact CycLawful.cycExp_eq $CL:term _ (by cyc_mem) _ (WF_asU64 _)
+        | rfl
+        | simp only [TargetLawful.square_eq $L:term]
+        | rw [TargetLawful.cycInvInPlace_eq $L:term, CycLawful.conj_eq $CL:term _ (by cyc_mem)])
+      (by cyc_mem) (fun w hw => ?_)
+    beta_reduce))
+
+theorem Bw6.copyT_eq (hx : WF E.x) (hx3 : WF E.xMinus1Div3) {f : T} (hf : f ∈ CL.Cyc) :
+    Bw6.copyT E f = .ok (Bw6.hardGenValT L.frob (sval E.xIsNegative E.x)
+      (sval E.xIsNegative E.xMinus1Div3)
+      (sval (decide (Bw6.d1T E < 0)) [Bw6.asU64 (Bw6.d1T E)]) (value [Bw6.d2 E]) f) := by
+  unfold Bw6.copyT Bw6.hardGenValT
+  repeat lock_step E L CL hx hx3
+  rfl
+
+theorem Bw6.copyF_eq (hx : WF E.x) (hx3 : WF E.xMinus1Div3) {f : T} (hf : f ∈ CL.Cyc) :
+    Bw6.copyF E f = .ok (Bw6.hardGenValF L.frob (sval E.xIsNegative E.x)
+      (sval E.xIsNegative E.xMinus1Div3)
+      (sval (decide (Bw6.d1F E < 0)) [Bw6.asU64 (Bw6.d1F E)]) (value [Bw6.d2 E]) f) := by
+  unfold Bw6.copyF Bw6.hardGenValF
+  repeat lock_step E L CL hx hx3
+  rfl
+
+theorem Bw6.copy761_eq (hx : WF E.x) {f : T} (hf : f ∈ CL.Cyc) :
+    Bw6.copy761 E f = .ok (Bw6.hard761Val L.frob (sval E.xIsNegative E.x) f) := by
+  unfold Bw6.copy761 Bw6.hard761Val
+  repeat lock_step E L CL hx hx
+  rfl
+
+/-- one step of the multiplicativity of a closed form -/
+syntax "mul_step" : tactic
+macro_rules
+| `(tactic| mul_step) =>
+  `(tactic| (
+    refine lockMul
+      (by first
+        | (simp only [mul_zpow, mul_inv, map_mul, mul_pow]; ring1)
+        | (simp only [mul_zpow, mul_inv, map_mul, mul_pow]; done)
+        | ring1)
+      (fun w1 w2 => ?_)
+    beta_reduce))
+
+theorem Bw6.hardGenValT_mul (φ : ℕ → T →*₀ T) (x x3 d1 : ℤ) (d2 : ℕ) (r s : T) :
+    Bw6.hardGenValT φ x x3 d1 d2 (r * s) =
+      Bw6.hardGenValT φ x x3 d1 d2 r * Bw6.hardGenValT φ x x3 d1 d2 s := by
+  unfold Bw6.hardGenValT
+  iterate 24 mul_step
+  ring1
+
+theorem Bw6.hardGenValF_mul (φ : ℕ → T →*₀ T) (x x3 d1 : ℤ) (d2 : ℕ) (r s : T) :
+    Bw6.hardGenValF φ x x3 d1 d2 (r * s) =
+      Bw6.hardGenValF φ x x3 d1 d2 r * Bw6.hardGenValF φ x x3 d1 d2 s := by
+  unfold Bw6.hardGenValF
+  iterate 25 mul_step
+  ring1
+
+theorem Bw6.hard761Val_mul (φ : ℕ → T →*₀ T) (x : ℤ) (r s : T) :
+    Bw6.hard761Val φ x (r * s) = Bw6.hard761Val φ x r * Bw6.hard761Val φ x s := by
+  unfold Bw6.hard761Val
+  iterate 54 mul_step
+  rfl
+
+/-- the value of the hard part selected by the configuration -/
+def Bw6.hardVal (E : Bw6 P F T) (φ : ℕ → T →*₀ T) (f : T) : T :=
+  if E.hardPartOverride then Bw6.hard761Val φ (sval E.xIsNegative E.x) f
+  else if E.tModRIsZero then
+    Bw6.hardGenValT φ (sval E.xIsNegative E.x) (sval E.xIsNegative E.xMinus1Div3)
+      (sval (decide (Bw6.d1T E < 0)) [Bw6.asU64 (Bw6.d1T E)]) (value [Bw6.d2 E]) f
+  else
+    Bw6.hardGenValF φ (sval E.xIsNegative E.x) (sval E.xIsNegative E.xMinus1Div3)
+      (sval (decide (Bw6.d1F E < 0)) [Bw6.asU64 (Bw6.d1F E)]) (value [Bw6.d2 E]) f
+
+theorem Bw6.hardVal_mul (φ : ℕ → T →*₀ T) (r s : T) :
+    Bw6.hardVal E φ (r * s) = Bw6.hardVal E φ r * Bw6.hardVal E φ s := by
+  unfold Bw6.hardVal
+  split
+  · exact Bw6.hard761Val_mul _ _ _ _
+  · split
+    · exact Bw6.hardGenValT_mul _ _ _ _ _ _ _
+    · exact Bw6.hardGenValF_mul _ _ _ _ _ _ _
+
+theorem Bw6.fe_eq (hx : WF E.x) (hx3 : WF E.xMinus1Div3) (hconj : ∀ f, E.conj f = L.conj f)
+    (hEasy : ∀ f, f ≠ 0 → easy6 L f ∈ CL.Cyc) (f : T) :
+    Bw6.finalExponentiation E f =
+      if f = 0 then .panic else .ok (some (Bw6.hardVal E L.frob (easy6 L f))) := by
+  unfold Bw6.finalExponentiation
+  rw [Bw6.easy_eq E L hconj]
+  by_cases hf : f = 0
+  · simp [hf]
+  · have hr := hEasy f hf
+    simp only [hf, if_false, obind_ok]
+    unfold Bw6.hardVal
+    cases ho : E.hardPartOverride
+    · simp only [Bool.false_eq_true, if_false]
+      rw [Bw6.hardGen_copy]
+      cases ht : E.tModRIsZero
+      · simp only [Bool.false_eq_true, if_false]
+        rw [Bw6.copyF_eq E L CL hx hx3 hr]; rfl
+      · simp only [if_true]
+        rw [Bw6.copyT_eq E L CL hx hx3 hr]; rfl
+    · simp only [if_true]
+      rw [Bw6.hard761_copy, Bw6.copy761_eq E L CL hx hr]; rfl
+
+end bw6
 end Ark.PairingP
